@@ -147,7 +147,7 @@ def oracle(ctx, deep):
             continue
         order, titles, rest = wlgen.parse_pre(a)
         head = rest.split(" ")
-        line = wlgen.wlgen_line(c["list"], c["length"], c["sep"], c["cap"], c["budget"], c["words"])
+        line = wlgen.wlgen_line(c["list"], c["length"], c["sep"], c["cap"], c["budget"], c["words"], shadow=c.get("shadow"))
         base = {"case": c["meta"], "line": line, "observed": a}
         if head[0] == "panic" and head[1] != "prng":
             ctx.violations.append(dict(base, finding_key="C13-panic", what="WLRecipe.Generate panicked (%s)" % head[1]))
@@ -183,5 +183,6 @@ def replay(v):
     r, _ = core.run_impl([line])
     print(line)
     print("->", r.get("r"))
+    core.replay_shared_list(v["line"])
     print("violation:", v["what"])
     return 1
